@@ -248,6 +248,49 @@ class GenerateTokens(Case):
         return [('attributes-are-columns', z3.And(S.in_list(cols, c['key_attr']), S.in_list(cols, c['join_attr']))),
                 ('keys-distinct', key_col_distinct(rec_field(t, 'rows'), k_))]
 
+    def _after_dict(c):
+        """lemma steps (each proved where it is asserted, then available): the selected rows, their keys and
+        token lists in terms of the source table; the keys of the selected rows are distinct; hence the dict maps
+        the key of every selected row to the tokens of that row"""
+        from pyvc import pandas_model as PM
+        t = c.p('table')
+        rows = rec_field(t, 'rows')
+        k_, m_ = GenerateTokens.ix(c)
+        rs = c.f(c.p('tokenizer'), 'return_set')
+        nn = c.v('table_nonnull')
+        nrows = rec_field(nn, 'rows')
+        mask = PM.notnull_list(PM.col_vals(t.t, m_))
+        src = lambda q: PM.sel_src(mask, q)
+        K = PM.col_vals(nn.t, k_)
+        T = PM.tok_list(rs, PM.col_vals(nn.t, m_))
+        D = c.call_result
+        p, p2 = ints('p!gtl p2!gtl')
+        m = ln(nrows)
+        inr = z3.And(p >= 0, p < m)
+        c.asserts.append(('selected-rows', FA([p], z3.Implies(inr, z3.And(
+            src(p) >= 0, src(p) < ln(rows), at(nrows, p) == at(rows, src(p)),
+            z3.Not(N.val_isnull(L_get(LV, at(rows, src(p)), m_))))), [at(nrows, p)])))
+        c.asserts.append(('selected-keys-and-tokens', z3.And(L_len(LV, K) == m, L_len(PM.LLV, T) == m, FA([p], z3.Implies(inr, z3.And(
+            L_get(LV, K, p) == L_get(LV, at(rows, src(p)), k_),
+            L_get(PM.LLV, T, p) == S.toks(rs, L_get(LV, at(rows, src(p)), m_)))), [L_get(LV, K, p)]))))
+        c.asserts.append(('selected-keys-distinct', FA([p, p2], z3.Implies(z3.And(p >= 0, p < p2, p2 < m),
+                                                                          L_get(LV, K, p) != L_get(LV, K, p2)),
+                                                     [z3.MultiPattern(L_get(LV, K, p), L_get(LV, K, p2))])))
+        c.asserts.append(('dict-maps-selected-keys-to-their-tokens', FA([p], z3.Implies(inr, z3.And(
+            D_has(TOKMAP, D.t, L_get(LV, K, p)), D_get(TOKMAP, D.t, L_get(LV, K, p)) == L_get(PM.LLV, T, p))),
+            [L_get(LV, K, p)])))
+
+        r = z3.Int('r!gtl')
+        dst = lambda q: PM.sel_dst(mask, q)
+        c.asserts.append(('present-rows-are-selected', FA([r], z3.Implies(
+            z3.And(r >= 0, r < ln(rows), z3.Not(N.val_isnull(L_get(LV, at(rows, r), m_)))),
+            z3.And(dst(r) >= 0, dst(r) < m, src(dst(r)) == r,
+                   L_get(LV, K, dst(r)) == L_get(LV, at(rows, r), k_),
+                   D_has(TOKMAP, D.t, L_get(LV, K, dst(r))),
+                   D_get(TOKMAP, D.t, L_get(LV, K, dst(r))) == S.toks(rs, L_get(LV, at(rows, r), m_)))), [at(rows, r)])))
+
+    hooks = (Hook('dict', _after_dict, ()),)
+
     def ensures(self, c, res):
         t = c.p('table')
         rows = rec_field(t, 'rows')
@@ -343,8 +386,27 @@ def _matcher(op, tok, l_none, r_none, candset_ok=True):
             c.asserts.append(('match-attr-is-among-the-first-two',
                               z3.And(L_index(LV, res.t, match.t) >= 0, L_index(LV, res.t, match.t) <= 1)))
 
+        def _after_chunks(c):
+            """lemma step: every chunk of the candidate set still references existing keys of the projected tables"""
+            splits = c.call_result
+            lt_, rt_ = c.v('ltable_projected'), c.v('rtable_projected')
+            cs = c.p('candset')
+            cc = rec_field(cs, 'cols')
+            cl, cr = col_index(cc.t, c['candset_l_key_attr']), col_index(cc.t, c['candset_r_key_attr'])
+            lk = col_index(rec_field(lt_, 'cols').t, c['l_key_attr'])
+            rk = col_index(rec_field(rt_, 'cols').t, c['r_key_attr'])
+            q = z3.Int('q!chk')
+            chunk = V(DF, L_get(splits.ty, splits.t, q))
+            c.asserts.append(('whole-candset-references-projected-keys', z3.And(
+                keys_resolve(cs, cl, lt_, lk), keys_resolve(cs, cr, rt_, rk))))
+            c.asserts.append(('chunks-reference-existing-keys', FA([q], z3.Implies(
+                z3.And(q >= 0, q < L_len(splits.ty, splits.t)),
+                z3.And(keys_resolve(chunk, cl, lt_, lk), keys_resolve(chunk, cr, rt_, rk))),
+                [L_get(splits.ty, splits.t, q)])))
+
         hooks = (Hook('_apply_matcher_split', _after_split, ('serial', 'split_result'), nth=0),
-                 Hook('get_attrs_to_project', _after_proj, ()))
+                 Hook('get_attrs_to_project', _after_proj, ()),
+                 Hook('split_table', _after_chunks, ()))
 
         def ensures(self, c, res):
             cs = c.p('candset')
